@@ -98,10 +98,10 @@ def disarm():
     signal.setitimer(signal.ITIMER_VIRTUAL, 0)
 
 
-def judge_stream(data: bytes, cfg):
+def judge_stream(data: bytes, cfg, kind=None):
     tick()
     try:
-        r = run_reader(data, cfg)
+        r = run_reader(data, cfg, stream=streams.STREAM_KINDS[kind](data) if kind else None)
     except Hang:
         r = streams.Run()
         r.horizon = True
@@ -162,6 +162,8 @@ def _replay_case(case):
         return [(k.replace("|nonempty", "|oversize"), d) for k, d in judge_parse(data, case["mode"], case["validate"], case["pbf"])[1]]
     if case["kind"] == "parse":
         return judge_parse(bytes.fromhex(case["data"]), case["mode"], case["validate"], case["pbf"])[1]
+    if case.get("stream_kind"):
+        return [(k + f"|stream={case['stream_kind']}", d) for k, d in judge_stream(bytes.fromhex(case["data"]), case["cfg"], case["stream_kind"])[1]]
     return judge_stream(bytes.fromhex(case["data"]), case["cfg"])[1]
 
 
@@ -264,6 +266,18 @@ def _eval_block(block, acc):
                 acc.outcomes[("stream", cfg.get("quitonerror", 0), type(r.raised).__name__ if r.raised else "end")] += 1
                 for key, detail in out:
                     acc.violation(key, {"kind": "stream", "data": data.hex(), "cfg": cfg}, detail)
+    elif kind == "SK":  # other kinds of stream object: pipe-like (has seek/tell, both raise) and read/readline-only
+        first = block[1]
+        for seq in [(first,)] + [(first, t) for t in streams.FRAME_TOKENS + streams.NOISE_TOKENS]:
+            data = streams.seq_bytes(seq)
+            for sk in ("nonseekable", "minimal"):
+                for cfg in SCOVER + [dict(quitonerror=0, protfilter=6), dict(quitonerror=1, protfilter=5), dict(quitonerror=0, protfilter=3), dict(quitonerror=0, protfilter=0, parsing=False)]:
+                    r, out = judge_stream(data, cfg, sk)
+                    acc.evaluations += 1
+                    acc.transitions += len(r.items) + 1
+                    acc.outcomes[("kind", sk, cfg.get("quitonerror"), type(r.raised).__name__ if r.raised else "end")] += 1
+                    for key, detail in out:
+                        acc.violation(key + f"|stream={sk}", {"kind": "stream", "data": data.hex(), "cfg": cfg, "stream_kind": sk}, detail)
     elif kind == "E":  # boundary-length frames and content-refused frames between every pair of neighbours
         for seq in streams.long_seqs(streams.LONG_NEIGHBOURS):
             if seq[0] != block[1] and not (block[1] is None and seq[0] in streams.LONG_NAMES):
@@ -367,6 +381,7 @@ def run_tier(tier, t0):
     blocks += [("T", f, k) for f in alphabet]
     blocks += [("D", cid.hex(), q) for cid in FS.known_clsids()]
     blocks += [("E", a) for a in [None] + streams.LONG_NEIGHBOURS]
+    blocks += [("SK", f) for f in streams.FRAME_TOKENS]
     blocks += [("R", t, n) for t in ("Nbad", "N1", "Ubad", "Uack", "Rbad", "R1") for n in (1100, 3000)]
     blocks += [("K", f) for f in ("Uack", "Uinf", "N1", "R1", "Ubad", "Rz", "fb562", "fd300")]
     acc = engine.sweep(blocks, eval_block)
@@ -382,6 +397,7 @@ def run_tier(tier, t0):
         assumptions=[
             f"a single call using more than {WATCHDOG_S}s of CPU time is a hang (slowest legitimate case measured: ~4 s)",
             "every boundary-length frame and every content-refused frame (NMEATypeError, UBXTypeError, UBXMessageError, RTCMTypeError) between every pair of 7 neighbour tokens x 6 configurations",
+            "token sequences of <= 2 through a pipe-like stream object (seek/tell exist and raise) and a read/readline-only object x 10 configurations incl. every single-protocol-excluded mask",
             "runs of 1,100 and 3,000 consecutive discarded messages (rejected, or filtered out by protfilter) followed by one good frame",
             "stream livelock = more than 4*len+16 stream calls (deterministic horizon); socket streams (fixed chunks, every cut, close/timeout): more than 64 recv calls after the end",
         ],
